@@ -219,6 +219,7 @@ struct Runner {
             if (in(70)) {
                 // assignment from another arithmetic type: the decision is made on the value converted to T
                 unsigned k = (unsigned) rng.below(4);
+                if (sizeof(T) == 1 && k < 2) k += 2;   // only integral sources for an 8-bit value (out-of-range floating conversions are undefined)
                 beginOp("assign-other-type");
                 if (k == 0) { double v = (double) model + (rng.chance(500) ? 0.5 : 0.0) + (rng.chance(300) ? 1.0 : 0.0); assignOther(v); }
                 else if (k == 1) { float v = rng.chance(500) ? (float) model : 0.1f * (float) rng.range(-9, 9); assignOther(v); }
